@@ -12,14 +12,25 @@ open CalicoVerif C02
 /-- the state declared by all calls so far -/
 def decl (g : Graph) : DP := upAll {} g.calls
 
-/-- the IP-set add/remove half of `validAll` -/
+/-- the calls the modelled nodes make besides IP-set add/remove -/
+def mainCall : Call → Bool
+  | .memberAdded _ _ => true
+  | .memberRemoved _ _ => true
+  | .endpointUpdate _ _ => true
+  | .policyActive _ _ => true
+  | .policyInactive _ => true
+  | .profileActive _ _ => true
+  | .profileInactive _ => true
+  | _ => false
+
+/-- the IP-set add/remove half of `validAll`, together with "no other kind of call is made" -/
 def setValidAll : DP → List Call → Prop
   | _, [] => True
   | u, c :: cs =>
     (match c with
      | .ipsetAdded _ _ => upValid u c
      | .ipsetRemoved _ => upValid u c
-     | _ => True) ∧ setValidAll (upApply u c) cs
+     | c => mainCall c = true) ∧ setValidAll (upApply u c) cs
 
 theorem setValidAll_append {u : DP} {a b : List Call} :
     setValidAll u (a ++ b) ↔ setValidAll u a ∧ setValidAll (upAll u a) b := by
@@ -84,7 +95,7 @@ theorem quiet_upAll : ∀ (cs : List Call) (u : DP), (∀ c ∈ cs, quietCall c 
     have h1 := quiet_upApply u hc
     have h2 := quiet_upAll cs (upApply u c) (fun x hx => h x (List.mem_cons_of_mem _ hx))
     refine ⟨h1.trans h2.1, ?_, h2.2⟩
-    cases c <;> simp [quietCall] at hc <;> trivial
+    cases c <;> simp [quietCall] at hc <;> rfl
 
 /-- `g'` = `g` after quiet calls only; scanner state untouched -/
 structure QuietRel (g g' : Graph) : Prop where
@@ -348,6 +359,6 @@ theorem rsInv_scanRules {H : IdFn} {g : Graph} (hi : RsInv H g) (key : RulesId) 
       unfold Graph.emit; split <;> rfl
     rw [this]
     refine setValidAll_append.mpr ⟨f6, ?_, trivial⟩
-    cases key <;> cases rules <;> trivial
+    cases key <;> cases rules <;> rfl
 
 end CalicoVerif.C01
